@@ -127,6 +127,7 @@ def run_case(case):
     m = sum(t.numel(o) for o in outs)
     viol, outcomes, execs, nontrivial, margin = [], set(), 0, set(), 0.0
     counters = dict(seam_hits=0, col_orders=0, configs=0)
+    maxima = {}
     col_orders_seen = set()
     fwd_checked = False
     for ci, cfg_ in enumerate(_configs(t, outs, leaves, m, case["light"], case.get("leafout", False))):
@@ -171,7 +172,7 @@ def run_case(case):
             continue
         execs += 1
         counters["configs"] += 1
-        tol = (1e-9 if dtype == "float64" else 2e-5)
+        tol = (1e-12 if dtype == "float64" else 2e-5)
         J = ref.jacobian(outs, eff)  # canonical column order (ascending leaf index)
         scale = max(1.0, float(np.abs(J).max()) if J.size else 1.0)
         # observed deltas
@@ -228,6 +229,7 @@ def run_case(case):
             if err < err_best:
                 err_best, found = err, perm
         margin = max(margin, min(err_best, 1e9))
+        maxima[f"jacobian+slices:{dtype}"] = max(maxima.get(f"jacobian+slices:{dtype}", 0.0), min(err_best, 1e9))
         if err_best > 1.0:
             # say which half fails for the best permutation
             viol.append(dict(sig="jacobian-or-slices-mismatch", cls=f"mismatch:{aggname}:{'default' if listing is None else 'explicit'}",
@@ -245,6 +247,7 @@ def run_case(case):
                 e = float(np.abs(exp[off:off + n].reshape(t.shapes[l]) - delta[l]).max())
                 sc = max(1.0, float(np.abs(w).max()) * scale)
                 margin = max(margin, e / (tol * sc * 8))
+                maxima[f"constant-value:{dtype}"] = max(maxima.get(f"constant-value:{dtype}", 0.0), e / (tol * sc * 8))
                 if e > tol * sc * 8:
                     viol.append(dict(sig="constant-weights-value-mismatch", cls="constvalue",
                                      msg=f"{P.prog_str(prog, outs)} | {sig_cfg} | leaf {l}: got {delta[l].tolist()} expected "
@@ -255,7 +258,7 @@ def run_case(case):
             nontrivial.add(tuple(eff))
         outcomes.add(digest([np.round(delta[i], 6).tolist() for i in eff]))
     counters["col_orders"] = len(col_orders_seen)
-    return dict(viol=viol, execs=execs, outcomes=sorted(outcomes), nontrivial=len(nontrivial), margin=margin, counters=counters)
+    return dict(viol=viol, execs=execs, outcomes=sorted(outcomes), nontrivial=len(nontrivial), margin=margin, counters=counters, maxima=maxima)
 
 
 def finalize(tier, seed, agg, cases, results):
